@@ -51,7 +51,7 @@ BUDGET_SCALE = {"quick": 1.0, "thorough": 1.0}
 # stripped): everything except the rebinding clause must still hold there
 BATCHES = [{"share": 0.85}, {"share": 0.15, "pyflags": ["-O"], "tier_suffix": "-O"}]
 
-USER_FIELD_NAMES = ["f0", "f1", "f2", "g0", "g1"]
+_USER_FIELD_NAMES = ["f0", "f1", "f2", "g0", "g1"]
 
 # {{{ user classes created inside the run
 
@@ -164,6 +164,9 @@ def make_user_classes(specs):
 def gen_user_classes(r):
     specs = []
     n = r.randint(1, 4)
+    # now and then every user class of the run spells its fields as "private" names
+    USER_FIELD_NAMES = (["_" + f for f in _USER_FIELD_NAMES] if r.random() < 0.15
+                        else _USER_FIELD_NAMES)
     decorated = []   # (name, all_fields)
     for k in range(n):
         name = f"U{k}"
